@@ -276,6 +276,7 @@ func checkB(c CaseB) *ev.Violation {
 	m := &gen.Model{}
 	w := &world{}
 	misuse := 0
+	pendingMisuse := map[*gen.MRow]int{}
 	nreg := 0
 	observe := func(step int, k string) *ev.Violation {
 		// pending rows report exactly what was raised on them
@@ -289,9 +290,21 @@ func checkB(c CaseB) *ev.Violation {
 					want = append(want, x.e)
 				}
 			}
-			got := r.Real.Errors()
+			all := r.Real.Errors()
+			var got []error
+			own := 0
+			for _, e := range all {
+				if e != nil && ekey(e) == "" {
+					own++ // the library's own (a cell refused by a pending zero-value row)
+					continue
+				}
+				got = append(got, e)
+			}
+			if own < pendingMisuse[r] {
+				return ev.V("step %d (%s): %d cells were refused by a pending zero-value row but it reports only %d errors of the library's own: %v", step, k, pendingMisuse[r], own, all)
+			}
 			if len(want) == 0 {
-				if got != nil {
+				if got != nil || (all != nil && len(all) == 0) {
 					return ev.V("step %d (%s): a pending row reports %v, nothing was raised on it", step, k, got)
 				}
 				continue
@@ -388,9 +401,18 @@ func checkB(c CaseB) *ev.Violation {
 					if r.Attached && (r.Sep || r.NilCells) {
 						misuse += len(op.Items)
 					}
+					if !r.Attached && r.NilCells {
+						pendingMisuse[r] += len(op.Items) // refused on a pending zero-value row: reported once the row has joined
+					}
 				}
 			}
 			m.Step(t, op)
+			for r, n := range pendingMisuse {
+				if r.Attached {
+					misuse += n
+					delete(pendingMisuse, r)
+				}
+			}
 		case "rowerr":
 			r := rowOf(st.Ref)
 			if r == nil {
